@@ -3,9 +3,11 @@ names) pair up to three names is replayed on a real ConvolvedFluxes object whose
 spellings of the request (array, list, names padded with trailing blanks): outcome, new names and which row ended up where."""
 import numpy as np
 
-from .common import model_check, run_tlc, MachineryError, pmap, Collector
+import os
 
-NAME = {1: 'ma', 2: 'mb', 3: 'mc'}
+from .common import model_check, run_tlc, MachineryError, pmap, Collector, SPEC
+
+NAME = {1: 'ma', 2: 'mb', 3: 'mc', 4: 'md'}
 
 
 def replay_chunk(behs):
@@ -56,14 +58,18 @@ def replay_chunk(behs):
 
 
 def run(ctx):
-    res = model_check(ctx, 'SortMatch', 'MC_SortMatch.cfg', timeout=600, coverage=False)
+    n = 4 if ctx.thorough else 3
+    cfg = ctx.tmp('MC_SortMatch_run.cfg')
+    with open(cfg, 'w') as f:
+        f.write(open(os.path.join(SPEC, 'MC_SortMatch.cfg')).read().replace('MaxLen = 3', 'MaxLen = %d' % n))
+    res = model_check(ctx, 'SortMatch', cfg, timeout=1800, coverage=False)
     em = [b for b in res['emitted'] if isinstance(b, dict) and 'req' in b]
     if not em:
         raise MachineryError('no behaviours emitted')
     r2 = run_tlc(ctx, 'SortMatch', 'MC_SortMatch_reach.cfg', timeout=300, coverage=False, workers=2)
     if 'Invariant NoTruncation is violated' not in r2['out']:
         raise MachineryError('named behaviour SilentTruncation is not reachable in the model')
-    ctx.notes['mc_constants'] = 'object and request of 1..3 names over 3 distinct names (duplicates included); 3 spellings of the request'
+    ctx.notes['mc_constants'] = 'object and request of 1..%d names' % n + ' over 3 distinct names (duplicates included); 3 spellings of the request'
     ctx.notes['behaviours_emitted'] = len(em)
     ctx.notes['named_behaviours_reachable'] = ['SilentTruncation']
     ctx.sample({'behaviour': em[len(em) // 2]})
